@@ -365,15 +365,16 @@ static void laws(unsigned long long& unit)
 			if(a != b || !(g1 == g2)) fail("laws", "Sample_Poisson(vector),seed=" + std::to_string(seed), "vector_overload_differs_from_scalar_sequence", "the vector overload does not equal successive scalar calls on the same generator");
 		}
 	// Poisson with means above the rescaling step: constant and two-level sequences
-	for(double mean : {600.0, 1500.0, 5000.0})
+	// (also the means around 708.4 and 745.13, where exp(-mean) becomes subnormal and then zero)
+	for(double mean : {600.0, 1500.0, 5000.0, 500.5, 708.0, 708.5, 710.0, 730.0, 740.0, 744.0, 744.9, 745.0, 745.1, 745.2, 746.0, 1000.5})
 	{
 		if(!mc::mine(unit++)) continue;
-		for(ld a : {5.4210108624275222e-20L, 2.3283064365386963e-10L, 1e-5L, 1e-3L})
-			for(ld b : {5.4210108624275222e-20L, 1e-5L, 0.5L})
+		for(ld a : {5.4210108624275222e-20L, 2.3283064365386963e-10L, 1e-5L, 1e-3L, 0.02L})
+			for(ld b : {5.4210108624275222e-20L, 1e-5L, 0.5L, 0.9L})
 				for(int period : {1, 2, 3})
 				{
 					std::vector<ld> u;
-					for(int i = 0; i < 300; i++) u.push_back(i % (period + 1) == period ? b : a);
+					for(int i = 0; i < 300; i++) u.push_back(i % (period + 1) == period ? b : a);	// (one generator state scripts 312 uniforms)
 					ld s = 0;
 					int kr = -1;
 					bool tie = false;
